@@ -251,6 +251,9 @@ func (pg *Page) split(sym string, values map[string]string) (map[string]string, 
 func (pg *Page) joinSink(sinkValues []string, remaining uint32, menuSizes [4]uint32) (string, uint16, error) {
 	l := 0
 	var count uint16
+	// number of rows in the page currently being built.
+	// (an empty row adds nothing to tb, so tb.Len() cannot tell "no row yet" from "only empty rows")
+	rows := 0
 	tb := strings.Builder{}
 	rb := strings.Builder{}
 
@@ -266,7 +269,7 @@ func (pg *Page) joinSink(sinkValues []string, remaining uint32, menuSizes [4]uin
 		l += len(v)
 		logg.Tracef("processing sink", "idx", i, "value", v, "netremaining", netRemaining, "l", l)
 		if uint32(l) > netRemaining-1 {
-			if tb.Len() == 0 {
+			if rows == 0 {
 				return "", 0, fmt.Errorf("capacity insufficient for sink field %v", i)
 			}
 			rb.WriteString(tb.String())
@@ -274,27 +277,27 @@ func (pg *Page) joinSink(sinkValues []string, remaining uint32, menuSizes [4]uin
 			c := uint32(rb.Len())
 			pg.sizer.AddCursor(c)
 			tb.Reset()
+			rows = 0
 			l = len(v)
 			if count == 0 {
 				netRemaining -= (menuSizes[2] + 1)
 			}
 			count += 1
 		}
-		if tb.Len() > 0 {
+		if rows > 0 {
 			tb.WriteByte(byte(0x00))
 			l += 1
 		}
 		tb.WriteString(v)
+		rows += 1
 	}
 
-	if tb.Len() > 0 {
+	if rows > 0 {
 		rb.WriteString(tb.String())
 		count += 1
 	}
 
-	r := rb.String()
-	r = strings.TrimRight(r, "\n")
-	return r, count, nil
+	return rb.String(), count, nil
 }
 
 func (pg *Page) applyMenuSink(ctx context.Context) ([]string, error) {
